@@ -203,3 +203,54 @@ def _m_edge_values(job, rec, k):
     targets = {t.rsplit('/', 2)[0] for (_, t) in ev}
     var = rec.get('var', '')
     return var.rsplit('/', 2)[0] in targets
+
+
+@matcher('coupling-edge-constant-keyerror')
+def _m_cpl_const(job, rec, k):
+    spec = job.get('spec')
+    if rec.get('kind') != 'compile-raises' or 'KeyError' not in rec.get('what', '') or spec is None:
+        return False
+    consts = {v for t in spec.edge_tpls.values() for o in t.ops for v, (kd, _) in spec.ops[o].vars.items() if kd == 'const'}
+    return any(f"'{c}'" in rec['what'] for c in consts) and 'population' in job.get('key', '')
+
+
+@matcher('population-n1-matrix-delay')
+def _m_pop_n1(job, rec, k):
+    """a population of size 1 takes part (as source or target) in a Connectivity with a delay or a coupling edge"""
+    spec = job.get('spec')
+    if spec is None or 'population' not in job.get('key', '') or rec.get('kind') != 'emitted-function-raises':
+        return False
+    sizes = {}
+    for n in spec.nodes:
+        p = n.rsplit('_', 1)[0]
+        sizes[p] = sizes.get(p, 0) + 1
+    for e in spec.edges:
+        if e.delay is not None or e.spread is not None or e.template:
+            for end in (e.src, e.tgt):
+                if sizes.get(end.rsplit('/', 2)[0].rsplit('_', 1)[0]) == 1:
+                    return True
+    return False
+
+
+@matcher('scalar-source-shared-kernel')
+def _m_scalar_shared_kernel(job, rec, k):
+    """vectorize=True, a node that is the only one of its type feeds >= 2 edges with the same (delay, spread) kernel"""
+    spec = job.get('spec')
+    if spec is None or rec.get('kind') != 'emitted-function-raises' or 'invalid index to scalar' not in rec.get('what', ''):
+        return False
+    if not (job.get('vectorize', True)):
+        return False
+    types = {}
+    for n, ns in spec.nodes.items():
+        types.setdefault(tuple(ns.ops), []).append(n)
+    groups = {}
+    for e in spec.edges:
+        if e.spread is None:
+            continue
+        sn = e.src.rsplit('/', 2)[0]
+        groups.setdefault((e.src, e.delay, e.spread), []).append(e)
+    for (src, d, s), es in groups.items():
+        sn = src.rsplit('/', 2)[0]
+        if len(es) >= 2 and len(types[tuple(spec.nodes[sn].ops)]) == 1:
+            return True
+    return False
